@@ -20,7 +20,7 @@ EXPLANATION = ('Theorems in Props/C18.lean about the model scanner: tokens indep
 ASSUMPTIONS = ['a data directive is always the last statement on its line (the data-line pattern owns the rest of the line)',
                'quoted literals are generated without backslash escapes; preprocessor directives are not part of the rewritten language']
 LEVEL = 'proof'
-MNEMS = ['nop', 'ldn', 'ldi', 'ldw', 'jr', 'jre', 'st', 'inc', 'mv', 'ldx', 'ldv']
+MNEMS = ['nop', 'ldn', 'ldi', 'ldw', 'jr', 'jre', 'st', 'inc', 'mv', 'ldx', 'ldv', 'ldd']
 
 
 def gen_program(rng):
@@ -77,6 +77,9 @@ def gen_program(rng):
                 toks = [mn, tgt]
             elif mn == 'st':
                 toks = ['st', '[', val(), ']'] if rng.random() < 0.6 else ['st', '[', val(), '+', '1', ']']
+            elif mn == 'ldd':
+                # a deferred operand: every bracket is a token of its own, blanks between them carry no meaning
+                toks = ['ldd', '[', '[', val(), ']', ']'] if rng.random() < 0.7 else ['ldd', '[', '[', val(), '+', '1', ']', ']']
             elif mn == 'inc':
                 toks = ['inc', reg()]
             elif mn == 'ldv':
@@ -195,6 +198,8 @@ def gen_case(rng, tier):
                                                     'offset': {'size': 8, 'byte_align': True}} for i, r in enumerate(C10.REGS)}}
     instrs_y = dict(instrs_y)
     instrs_y['ldx'] = {'bytecode': {'value': 0x1C, 'size': 6}, 'operands': {'count': 1, 'operand_sets': {'list': ['indr']}}}
+    osets['def16'] = {'operand_values': {'df16': {'type': 'deferred_numeric', 'argument': {'size': 16, 'byte_align': True}}}}
+    instrs_y['ldd'] = {'bytecode': {'value': 0x63, 'size': 8}, 'operands': {'count': 1, 'operand_sets': {'list': ['def16']}}}
     instrs_y['ldv'] = {'bytecode': {'value': 0x61, 'size': 8}, 'operands': {'count': 1, 'operand_sets': {'list': ['imm8']}},
                        'variants': [{'bytecode': {'value': 0x62, 'size': 8}, 'operands': {'count': 1, 'operand_sets': {'list': ['regs']}}}]}
     isa = {'description': 'c18', 'general': {'address_size': 16, 'endian': de, 'registers': list(C10.REGS)},
